@@ -520,3 +520,88 @@ pub fn render_file(f: &File) -> String {
 pub fn syn_ok(src: &str) -> Result<(), String> {
     syn::parse_file(src).map(|_| ()).map_err(|e| e.to_string())
 }
+
+
+// ------------------------------------------------------------------------------------------
+// Ambient variations: rewrites of a program that no property's verdict may depend on
+// ------------------------------------------------------------------------------------------
+
+pub const AMBIENTS: [&str; 6] = ["none", "noise-attributes", "inside-modules", "items-reversed", "noise-items", "attribute-style-flipped"];
+
+fn flip(s: AttrStyle) -> AttrStyle {
+    match s {
+        AttrStyle::Separate => AttrStyle::MergedReversed,
+        AttrStyle::Merged => AttrStyle::SeparateReversed,
+        AttrStyle::MergedReversed => AttrStyle::Separate,
+        AttrStyle::SeparateReversed => AttrStyle::Merged,
+    }
+}
+
+fn for_fields(it: &mut Item, f: &mut dyn FnMut(&mut Field)) {
+    match &mut it.kind {
+        IKind::Struct(fs) => fs.iter_mut().for_each(|x| f(x)),
+        IKind::Enum { variants, .. } => {
+            for v in variants {
+                if let VKind::Struct(fs) = &mut v.kind {
+                    fs.iter_mut().for_each(|x| f(x));
+                }
+            }
+        }
+        _ => {}
+    }
+}
+
+/// Apply ambient variation `k` (index into `AMBIENTS`). Names introduced here contain "Ambient".
+pub fn ambient(file: &File, k: usize) -> File {
+    let mut f = file.clone();
+    match AMBIENTS[k] {
+        "noise-attributes" => {
+            for it in &mut f.items {
+                it.docs.push(Doc::Line("ambient note on the item".into()));
+                it.cfgs.push("feature = \"ambient\"".into());
+                if matches!(it.kind, IKind::Struct(_)) {
+                    it.extra_serde.push("deny_unknown_fields".into());
+                }
+                for_fields(it, &mut |x| {
+                    x.docs.push(Doc::Line("ambient note on the field".into()));
+                    x.cfgs.push("feature = \"ambient\"".into());
+                });
+                if let IKind::Enum { variants, .. } = &mut it.kind {
+                    for v in variants {
+                        v.docs.push(Doc::Line("ambient note on the variant".into()));
+                        v.cfgs.push("feature = \"ambient\"".into());
+                        v.extra_serde.push("alias = \"AmbientAlias\"".into());
+                    }
+                }
+            }
+        }
+        "inside-modules" => {
+            for it in &mut f.items {
+                let mut m = vec!["amb".to_string(), "inner".to_string()];
+                m.extend(it.mods.iter().cloned());
+                it.mods = m;
+            }
+        }
+        "items-reversed" => f.items.reverse(),
+        "noise-items" => {
+            let mut items = vec![Item::strukt("AaaAmbient", vec![Field::new("n", Ty::Prim("String"))])];
+            items.extend(f.items.iter().cloned());
+            items.push(Item::new("MmmAmbient", IKind::Alias(Ty::Vec(Box::new(Ty::user("AaaAmbient"))))));
+            items.push(Item::enumm("ZzzAmbient", vec![Variant::new("One", VKind::Unit), Variant::new("Two", VKind::Unit)]));
+            f.items = items;
+        }
+        "attribute-style-flipped" => {
+            for it in &mut f.items {
+                it.style = flip(it.style);
+                for_fields(it, &mut |x| x.style = flip(x.style));
+                if let IKind::Enum { variants, .. } = &mut it.kind {
+                    for v in variants {
+                        v.style = flip(v.style);
+                    }
+                }
+            }
+        }
+        _ => {}
+    }
+    f
+}
